@@ -14,8 +14,10 @@ Open Scope Z_scope.
    s_hang: the thread-safe flavour did not return within the watchdog;
    s_fp = true: s_flat holds only the two fingerprints [fp 1000003 17; fp 69069 23] of the flat list
    (Coq parses ~10^4 numerals per second, so most cases carry fingerprints and a share the full list) *)
-Record sobs := so { s_out : option out; s_hang : bool; s_fp : bool; s_flat : list Z }.
-Record case := mkc { c_nl : nat; c_hist : list op; c_obs : list sobs }.
+Record sobs := so { s_out : option cout; s_hang : bool; s_fp : bool; s_flat : list Z }.
+(* c_ts: the thread-safe flavour took part (not in histories whose callbacks write the iterated list: there
+   only the lock-free flavour and container/list ran, and s_hang is not compared) *)
+Record case := mkc { c_nl : nat; c_ts : bool; c_hist : list call; c_obs : list sobs }.
 
 Definition out_eqb (a b : out) : bool :=
   match a, b with
@@ -30,6 +32,13 @@ Fixpoint zlist_eqb (a b : list Z) : bool :=
   match a, b with
   | [], [] => true
   | x :: a', y :: b' => (x =? y) && zlist_eqb a' b'
+  | _, _ => false
+  end.
+
+Definition cout_eqb (a b : cout) : bool :=
+  match a, b with
+  | COut x, COut y => out_eqb x y
+  | CIter v1 b1, CIter v2 b2 => zlist_eqb v1 v2 && Bool.eqb b1 b2
   | _, _ => false
   end.
 
@@ -59,16 +68,21 @@ Definition obs_eqb (nl : nat) st (ob : sobs) : bool :=
   let f := flat_obs nl st in
   if s_fp ob then zlist_eqb [fp 1000003 17 f; fp 69069 23 f] (s_flat ob) else zlist_eqb f (s_flat ob).
 
-Definition hangs (r : res) : bool := match r with Deadlock => true | Done _ => false end.
+Definition blocked {A} (r : tres A) : bool := match r with TBlocked => true | TDone _ _ => false end.
+Definition locks_after {A} (k : locks) (r : tres A) : locks := match r with TBlocked => k | TDone _ k1 => k1 end.
 
-Fixpoint agree (nl : nat) st (h : list op) (obs : list sobs) : bool :=
+(* the lock state of the thread-safe world is threaded through the history (it stays lk0 as long as every
+   method releases what it took); the outcome and the observations are those of the lock-free model, which
+   the harness found equal in both flavours *)
+Fixpoint agree (nl : nat) (ts : bool) (k : locks) st (h : list call) (obs : list sobs) : bool :=
   match h, obs with
   | [], [] => true
   | o :: r, ob :: obs' =>
-      Bool.eqb (hangs (step_ts st o)) (s_hang ob) &&
-      match step st o, s_out ob with
+      let t := cstep_ts k st o in
+      (negb ts || Bool.eqb (blocked t) (s_hang ob)) &&
+      match cstep st o, s_out ob with
       | None, None => match r with [] => true | _ => false end
-      | Some (st1, o1), Some o0 => out_eqb o1 o0 && obs_eqb nl st1 ob && agree nl st1 r obs'
+      | Some (st1, o1), Some o0 => cout_eqb o1 o0 && obs_eqb nl st1 ob && agree nl ts (locks_after k t) st1 r obs'
       | _, _ => false
       end
   | _, _ => false
@@ -77,7 +91,7 @@ Fixpoint agree (nl : nat) st (h : list op) (obs : list sobs) : bool :=
 Fixpoint mismatches_from (i : nat) (cs : list case) : list nat :=
   match cs with
   | [] => []
-  | c :: r => if agree (c_nl c) init_state (c_hist c) (c_obs c) then mismatches_from (S i) r
+  | c :: r => if agree (c_nl c) (c_ts c) lk0 init_state (c_hist c) (c_obs c) then mismatches_from (S i) r
               else i :: mismatches_from (S i) r
   end.
 
